@@ -213,6 +213,10 @@ func (r *RolloutHistoryReconciler) getRolloutHistorySpec(rollout *rolloutv1alpha
 		return rolloutHistorySpec, err
 	}
 	rolloutHistorySpec.Workload = *workload
+	// a rollout without traffic routing has no service or traffic routing resources to record
+	if rollout.Spec.Strategy.Canary == nil || len(rollout.Spec.Strategy.Canary.TrafficRoutings) == 0 {
+		return rolloutHistorySpec, nil
+	}
 	// get serviceInfo
 	if rolloutHistorySpec.Service, err = r.getServiceInfo(rollout); err != nil {
 		return rolloutHistorySpec, err
